@@ -118,7 +118,7 @@ def run(ctx, rep):
         "Node.copy analysed on all paths with a small may-domain (which container fields of the clone still alias the "
         "original's); freshness of every re-binding expression and of every element put into the child list; id re-binding, "
         "registration order and exits by marker dataflow; parent links of the child copies by the pairing rule of C09")
-    rep.rules_run = ["R1", "R2", "R3", "R4"]
+    rep.rules_run = ["R1", "R2", "R3", "R4", "R5"]
     rep.assumptions += ["NOT decided: uuid1 uniqueness; value equality of copied strings (immutable, shared by reference)"]
     prog = ctx.prog
     w = ctx.world
@@ -236,6 +236,50 @@ def run(ctx, rep):
         if not ok:
             rep.add("R4", fi.qname, node, "a child copy is listed by the clone but its parent link is not set to the clone: parent links "
                     "below the copy's root would point into the original", fi.loc(node))
+    # children attached through the Node API (add_child): the link is add_child's own obligation (C09-R1)
+    for n in ast.walk(fi.node):
+        if isinstance(n, ast.Call) and isinstance(n.func, ast.Attribute) and n.func.attr == "add_child" and isinstance(n.func.value, ast.Name) \
+                and n.func.value.id == dom.clone:
+            rep.count("child insertions in copy")
+    # ---- R5: what copy calls on the clone / on the child copies may only attach them (child list of the clone, parent link
+    # of the child copy): a callee that rewrites another field makes the copy differ from the original in that field
+    from .c11 import get_effects
+    eff = get_effects(ctx)
+    ft = w.types(fi)
+    copies = {dom.clone}
+    for n in ast.walk(fi.node):
+        if isinstance(n, ast.Assign) and len(n.targets) == 1 and isinstance(n.targets[0], ast.Name) and isinstance(n.value, ast.Call) \
+                and isinstance(n.value.func, ast.Attribute) and n.value.func.attr == "copy":
+            copies.add(n.targets[0].id)
+
+    def is_copy_expr(a):
+        if isinstance(a, ast.Name) and a.id in copies:
+            return True
+        return isinstance(a, ast.Call) and isinstance(a.func, ast.Attribute) and a.func.attr == "copy" and any(
+            tg.func is not None and tg.func.qname == fi.qname for tg in w.resolve_call(ft, a))
+    for n in ast.walk(fi.node):
+        if not isinstance(n, ast.Call):
+            continue
+        for tg in w.resolve_call(ft, n):
+            H = tg.func
+            if H is None or tg.kind == "class" or H.qname == fi.qname or H.name in ("set_node_instance",) or H.kind in ("property",):
+                continue
+            am = w.arg_map(tg, n)
+            bound = {p: a for p, a in am.items() if is_copy_expr(a)}
+            if not bound:
+                continue
+            rep.count("calls on the copy inside copy")
+            for e in eff.effects(H):
+                if e.root not in bound or e.kind not in ("W", "M"):
+                    continue
+                okf = e.field in ("_children", "_parent") or (H.kind == "setter" and True)
+                if H.kind == "setter":
+                    continue
+                rep.oblige(("R5", H.qname, e.field, e.root), okf)
+                if not okf:
+                    rep.add("R5", fi.qname, n, f"copy hands the copy to {H.name}, which rewrites its {e.field} ({e.construct} at {e.loc}): the copy "
+                            f"no longer equals the original in that field", fi.loc(n))
+                    break
     rep.floor("container fields of Node", 4)
     rep.floor("return paths of copy", 1)
     rep.floor("child insertions in copy", 1)
